@@ -39,59 +39,88 @@ Proof.
 Qed.
 
 (* ================================================================== coherence of one object *)
-Definition want (g : grid) (k : kind) : tag := match k with KFI => TI | _ => TF g end.
-Definition tag_for (g : grid) (k : kind) (v : option tag) : Prop := v = None \/ v = Some (want g k).
-Definition key_kind (k : ikey) : kind := if key_fd k then KFD else KFI.
+(* [g] is the object's frequency grid, [e] the eigen-decomposition instance its eigen-data is expressed in
+   (TI: the one numeric.diagonalize returns, TE n: installed from outside by extend / remap) *)
+Definition foi_tag (g : grid) (e : tag) : tag := match e with TE n => TFE g n | _ => TF g end.
+Definition want (g : grid) (e : tag) (k : kind) : tag :=
+  match k with KFI => TI | KE => e | KFE => foi_tag g e | _ => TF g end.
+Definition tag_for (g : grid) (e : tag) (k : kind) (v : option tag) : Prop := v = None \/ v = Some (want g e k).
+Definition key_kind (k : ikey) : kind :=
+  match k with
+  | K_n_opers_transformed | K_basis_transformed => KE | K_first_order_integral => KFE | _ => KFD
+  end.
+Definition edec (e : tag) : Prop := e = TI \/ exists n, e = TE n.
 
-(* every value present is the right one for grid g *)
-Definition OPre (g : grid) (s : slot -> option tag) (d : ikey -> option tag) : Prop :=
-  (forall x, tag_for g (slot_kind x) (s x)) /\ (forall k, tag_for g (key_kind k) (d k)).
+(* every value present is the right one for grid g and decomposition e *)
+Definition OPre (g : grid) (e : tag) (s : slot -> option tag) (d : ikey -> option tag) : Prop :=
+  (forall x, tag_for g e (slot_kind x) (s x)) /\ (forall k, tag_for g e (key_kind k) (d k)).
+(* eigvals, eigvecs, propagators are present or absent together (diagonalize recomputes all three if one is
+   missing) *)
+Definition Trio (s : slot -> option tag) : Prop :=
+  (s S_eigvals = None /\ s S_eigvecs = None /\ s S_propagators = None) \/
+  (s S_eigvals <> None /\ s S_eigvecs <> None /\ s S_propagators <> None).
+(* the intermediates expressed in the eigenbasis *)
+Definition EKeysNone (d : ikey -> option tag) : Prop :=
+  d K_n_opers_transformed = None /\ d K_basis_transformed = None /\ d K_first_order_integral = None.
+(* ... are present only together with the decomposition they refer to (commit 7378d31) *)
+Definition OP (g : grid) (e : tag) s d : Prop :=
+  edec e /\ OPre g e s d /\ Trio s /\ (s S_eigvecs = None -> EKeysNone d).
 Definition FDNone (s : slot -> option tag) (d : ikey -> option tag) : Prop :=
   (forall x, slot_kind x = KFD -> s x = None) /\ (forall k, key_fd k = true -> d k = None).
 (* ... and nothing frequency dependent is present unless _omega is *)
-Definition OCohG (g : grid) s d : Prop := OPre g s d /\ (s S_omega = None -> FDNone s d).
-Definition ObjCoh s d : Prop := exists g, OCohG g s d.
+Definition OCohG (g : grid) (e : tag) s d : Prop := OP g e s d /\ (s S_omega = None -> FDNone s d).
+Definition ObjCoh s d : Prop := exists g e, OCohG g e s d.
 
-Definition LP g (l : lst) := OPre g (sl l) (di l).
-Definition LCG g (l : lst) := OCohG g (sl l) (di l).
-Definition LCO g (l : lst) := OPre g (sl l) (di l) /\ sl l S_omega = Some (TF g).
+Definition LP g (l : lst) := exists e, OP g e (sl l) (di l).
+Definition LCG g (l : lst) := exists e, OCohG g e (sl l) (di l).
+Definition LCO g (l : lst) := exists e, OP g e (sl l) (di l) /\ sl l S_omega = Some (TF g).
 Definition LC (l : lst) := ObjCoh (sl l) (di l).
 
 Lemma LCO_LCG : forall g l, LCO g l -> LCG g l.
-Proof. intros g l [H1 H2]; split; [exact H1 | rewrite H2; discriminate]. Qed.
+Proof. intros g l [e [H1 H2]]; exists e; split; [exact H1 | rewrite H2; discriminate]. Qed.
 Lemma LCG_LC : forall g l, LCG g l -> LC l.
-Proof. intros g l H; exists g; exact H. Qed.
+Proof. intros g l [e H]; exists g, e; exact H. Qed.
 Lemma LCO_LC : forall g l, LCO g l -> LC l.
 Proof. intros; eapply LCG_LC, LCO_LCG; eauto. Qed.
 Lemma LCG_LP : forall g l, LCG g l -> LP g l.
-Proof. intros g l [H _]; exact H. Qed.
+Proof. intros g l [e [H _]]; exists e; exact H. Qed.
 Lemma LCO_LP : forall g l, LCO g l -> LP g l.
-Proof. intros g l [H _]; exact H. Qed.
+Proof. intros g l [e [H _]]; exists e; exact H. Qed.
+Lemma LCO_omega : forall g l, LCO g l -> sl l S_omega = Some (TF g).
+Proof. intros g l [e [_ H]]; exact H. Qed.
+Lemma LP_omega_LCO : forall g l, LP g l -> sl l S_omega = Some (TF g) -> LCO g l.
+Proof. intros g l [e H] Ho; exists e; split; assumption. Qed.
 
-Lemma want_fi : forall g g' k, k = KFI -> want g k = want g' k.
-Proof. intros; subst; reflexivity. Qed.
+Lemma key_fd_kind : forall k, key_fd k = true <-> key_kind k <> KE.
+Proof. intros k; destruct k; simpl; split; intros H; try reflexivity; try discriminate; try contradiction; exfalso; apply H; reflexivity. Qed.
 
 (* with _omega absent the grid is immaterial *)
 Lemma LCG_none_any : forall g g' l, LCG g l -> sl l S_omega = None -> LCG g' l.
 Proof.
-  intros g g' l [[Hs Hk] Hn] Ho. destruct (Hn Ho) as [Fs Fk].
-  split; [split | intros _; split; assumption].
+  intros g g' l [e [[He [[Hs Hk] [Ht Hen]]] Hn]] Ho. destruct (Hn Ho) as [Fs Fk].
+  exists e. split; [split; [exact He | split; [split | split; assumption]] | intros _; split; assumption].
   - intros x. destruct (slot_kind x) eqn:K.
     + left. destruct x; try discriminate K. exact Ho.
     + left. apply Fs; exact K.
     + specialize (Hs x). rewrite K in Hs. exact Hs.
-  - intros k. unfold key_kind. specialize (Hk k). unfold key_kind in Hk.
-    destruct (key_fd k) eqn:K; [left; apply Fk; exact K | exact Hk].
+    + specialize (Hs x). rewrite K in Hs. exact Hs.
+    + destruct x; discriminate K.
+  - intros k. destruct (key_kind k) eqn:K.
+    + destruct k; discriminate K.
+    + left. apply Fk. destruct k; try reflexivity; discriminate K.
+    + destruct k; discriminate K.
+    + specialize (Hk k). rewrite K in Hk. exact Hk.
+    + left. apply Fk. destruct k; try reflexivity; discriminate K.
 Qed.
 
 Lemma LC_cases : forall l g, LC l ->
   (sl l S_omega = None /\ LCG g l) \/ (exists g', sl l S_omega = Some (TF g') /\ LCO g' l).
 Proof.
-  intros l g [g' H]. destruct (sl l S_omega) eqn:Ho.
-  - right. destruct H as [[Hs Hk] Hn]. pose proof (Hs S_omega) as Hw. rewrite Ho in Hw.
+  intros l g [g' [e H]]. destruct (sl l S_omega) eqn:Ho.
+  - right. destruct H as [[He [[Hs Hk] Hr]] Hn]. pose proof (Hs S_omega) as Hw. rewrite Ho in Hw.
     destruct Hw as [Hw | Hw]; [discriminate | ]. simpl in Hw. injection Hw as ->.
-    exists g'. split; [reflexivity | split; [split; assumption | exact Ho]].
-  - left. split; [reflexivity | eapply LCG_none_any; eauto].
+    exists g'. split; [reflexivity | exists e; split; [split; [exact He | split; [split; assumption | exact Hr]] | exact Ho]].
+  - left. split; [reflexivity | apply (LCG_none_any g' g); [exists e; exact H | exact Ho]].
 Qed.
 
 (* ================================================================== weakest preconditions *)
@@ -152,59 +181,81 @@ Lemma LCO_log : forall g l lab, LCO g l -> LCO g (logL l lab). Proof. intros; ex
 Lemma LC_log : forall l lab, LC l -> LC (logL l lab). Proof. intros; exact H. Qed.
 
 (* ------------------------------------------------------------------ setting slots *)
-Lemma LP_set : forall g l s, LP g l -> LP g (setL l s (Some (want g (slot_kind s)))).
+(* slots whose content does not refer to the eigen-decomposition, propagators excepted (set only by diagonalize) *)
+Definition plain_slot (s : slot) : bool :=
+  match slot_kind s with KE | KFE => false | _ => negb (slot_eqb s S_propagators) end.
+Definition want0 (g : grid) (k : kind) : tag := match k with KFI => TI | _ => TF g end.
+
+Lemma plain_not_trio : forall s, plain_slot s = true -> s <> S_eigvals /\ s <> S_eigvecs /\ s <> S_propagators.
+Proof. intros s H; repeat split; intros ->; discriminate H. Qed.
+Lemma Trio_upd : forall f s v, s <> S_eigvals -> s <> S_eigvecs -> s <> S_propagators -> Trio f -> Trio (upd f s v).
+Proof. intros f s v N1 N2 N3 H. unfold Trio. rewrite !upd_other by assumption. exact H. Qed.
+Lemma want0_want : forall g e s, plain_slot s = true -> want g e (slot_kind s) = want0 g (slot_kind s).
+Proof. intros g e s H. unfold plain_slot in H. destruct (slot_kind s); try reflexivity; discriminate H. Qed.
+
+Lemma OP_set : forall g e l s, plain_slot s = true -> OP g e (sl l) (di l) ->
+  OP g e (upd (sl l) s (Some (want0 g (slot_kind s)))) (di l).
 Proof.
-  intros g l s [Hs Hk]. split; [ | exact Hk]. intros x. simpl.
-  destruct (upd_cases _ (sl l) s x (Some (want g (slot_kind s)))) as [[-> ->] | [_ ->]]; [right; reflexivity | apply Hs].
+  intros g e l s Hp [He [[Hs Hk] [Ht Hen]]]. destruct (plain_not_trio s Hp) as [N1 [N2 N3]].
+  split; [exact He | split; [split; [ | exact Hk] | split; [apply Trio_upd; assumption | ]]].
+  - intros x. destruct (upd_cases _ (sl l) s x (Some (want0 g (slot_kind s)))) as [[<- ->] | [_ ->]]; [ | apply Hs].
+    right. rewrite (want0_want g e s Hp). reflexivity.
+  - rewrite upd_other by exact N2. exact Hen.
 Qed.
-Lemma LP_set_none : forall g l s, LP g l -> LP g (setL l s None).
+Lemma OP_set_none : forall g e l s, plain_slot s = true -> OP g e (sl l) (di l) -> OP g e (upd (sl l) s None) (di l).
 Proof.
-  intros g l s [Hs Hk]. split; [ | exact Hk]. intros x. simpl.
-  destruct (upd_cases _ (sl l) s x None) as [[-> ->] | [_ ->]]; [left; reflexivity | apply Hs].
+  intros g e l s Hp [He [[Hs Hk] [Ht Hen]]]. destruct (plain_not_trio s Hp) as [N1 [N2 N3]].
+  split; [exact He | split; [split; [ | exact Hk] | split; [apply Trio_upd; assumption | ]]].
+  - intros x. destruct (upd_cases _ (sl l) s x None) as [[<- ->] | [_ ->]]; [left; reflexivity | apply Hs].
+  - rewrite upd_other by exact N2. exact Hen.
 Qed.
-Lemma LCO_set : forall g l s, LCO g l -> LCO g (setL l s (Some (want g (slot_kind s)))).
+
+Lemma LP_set : forall g l s, plain_slot s = true -> LP g l -> LP g (setL l s (Some (want0 g (slot_kind s)))).
+Proof. intros g l s Hp [e H]. exists e. apply (OP_set g e l s Hp H). Qed.
+Lemma LCO_set : forall g l s, plain_slot s = true -> LCO g l -> LCO g (setL l s (Some (want0 g (slot_kind s)))).
 Proof.
-  intros g l s [H Ho]. split; [apply (LP_set g l s H) | ]. simpl.
-  destruct (upd_cases _ (sl l) s S_omega (Some (want g (slot_kind s)))) as [[-> ->] | [_ ->]]; [reflexivity | exact Ho].
+  intros g l s Hp [e [H Ho]]. exists e. split; [apply (OP_set g e l s Hp H) | ]. simpl.
+  destruct (upd_cases _ (sl l) s S_omega (Some (want0 g (slot_kind s)))) as [[-> ->] | [_ ->]]; [reflexivity | exact Ho].
 Qed.
 Lemma LP_set_omega : forall g l, LP g l -> LCO g (setL l S_omega (Some (TF g))).
 Proof.
-  intros g l H. split; [apply (LP_set g l S_omega H) | simpl; apply upd_same].
+  intros g l [e H]. exists e. split; [apply (OP_set g e l S_omega eq_refl H) | simpl; apply upd_same].
 Qed.
 (* a frequency-independent slot can be filled at any time *)
-Lemma LCG_set_fi : forall g l s, slot_kind s = KFI -> LCG g l -> LCG g (setL l s (Some TI)).
+Lemma fi_plain : forall s, slot_kind s = KFI -> s <> S_propagators -> plain_slot s = true.
+Proof. intros s K N. unfold plain_slot. rewrite K. destruct s; try reflexivity; try discriminate K. contradiction. Qed.
+Lemma LCG_set_fi : forall g l s, slot_kind s = KFI -> s <> S_propagators -> LCG g l -> LCG g (setL l s (Some TI)).
 Proof.
-  intros g l s K [H Hn]. split.
-  - pose proof (LP_set g l s H) as H'. rewrite K in H'. exact H'.
+  intros g l s K N [e [H Hn]]. pose proof (fi_plain s K N) as Hp. exists e. split.
+  - pose proof (OP_set g e l s Hp H) as H'. rewrite K in H'. exact H'.
   - simpl. destruct (upd_cases _ (sl l) s S_omega (Some TI)) as [[-> _] | [Hne ->]]; [discriminate K | ].
     intros Ho. destruct (Hn Ho) as [Fs Fk]. split; [ | exact Fk].
     intros x Kx. destruct (upd_cases _ (sl l) s x (Some TI)) as [[-> _] | [_ ->]]; [congruence | apply Fs; exact Kx].
 Qed.
-Lemma LCO_set_fi : forall g l s, slot_kind s = KFI -> LCO g l -> LCO g (setL l s (Some TI)).
-Proof. intros g l s K H. pose proof (LCO_set g l s H) as H'. rewrite K in H'. exact H'. Qed.
-Lemma LP_set_fi : forall g l s, slot_kind s = KFI -> LP g l -> LP g (setL l s (Some TI)).
-Proof. intros g l s K H. pose proof (LP_set g l s H) as H'. rewrite K in H'. exact H'. Qed.
+Lemma LCO_set_fi : forall g l s, slot_kind s = KFI -> s <> S_propagators -> LCO g l -> LCO g (setL l s (Some TI)).
+Proof. intros g l s K N H. pose proof (LCO_set g l s (fi_plain s K N) H) as H'. rewrite K in H'. exact H'. Qed.
+Lemma fd_plain : forall s, slot_kind s = KFD -> plain_slot s = true.
+Proof. intros s K. unfold plain_slot. rewrite K. destruct s; try reflexivity; discriminate K. Qed.
 Lemma LCO_set_fd : forall g l s, slot_kind s = KFD -> LCO g l -> LCO g (setL l s (Some (TF g))).
-Proof. intros g l s K H. pose proof (LCO_set g l s H) as H'. rewrite K in H'. exact H'. Qed.
+Proof. intros g l s K H. pose proof (LCO_set g l s (fd_plain s K) H) as H'. rewrite K in H'. exact H'. Qed.
 
-Lemma LP_setkey : forall g l k, LP g l -> LP g (setK l k (Some (want g (key_kind k)))).
+(* read a frequency-dependent value under LP *)
+Lemma LP_read : forall g l s t, LP g l -> slot_kind s = KFD -> sl l s = Some t -> t = TF g.
 Proof.
-  intros g l k [Hs Hk]. split; [exact Hs | ]. intros x. simpl.
-  destruct (updk_cases _ (di l) k x (Some (want g (key_kind k)))) as [[-> ->] | [_ ->]]; [right; reflexivity | apply Hk].
+  intros g l s t [e [_ [[Hs _] _]]] K E. destruct (Hs s) as [H | H]; rewrite E in H; [discriminate | ].
+  rewrite K in H. injection H; auto.
 Qed.
-Lemma LCO_setkey : forall g l k, LCO g l -> LCO g (setK l k (Some (want g (key_kind k)))).
-Proof. intros g l k [H Ho]. split; [apply (LP_setkey g l k H) | exact Ho]. Qed.
-
-(* read a value under LP *)
-Lemma LP_read : forall g l s t, LP g l -> sl l s = Some t -> t = want g (slot_kind s).
-Proof. intros g l s t [Hs _] E. destruct (Hs s) as [H | H]; rewrite E in H; [discriminate | injection H; auto]. Qed.
-Lemma LP_readk : forall g l k t, LP g l -> di l k = Some t -> t = want g (key_kind k).
-Proof. intros g l k t [_ Hk] E. destruct (Hk k) as [H | H]; rewrite E in H; [discriminate | injection H; auto]. Qed.
+Lemma LP_eigvecs : forall g l, LP g l ->
+  sl l S_eigvecs = None \/ exists e, edec e /\ sl l S_eigvecs = Some e /\ OP g e (sl l) (di l).
+Proof.
+  intros g l [e H]. pose proof H as [He [[Hs _] _]]. destruct (Hs S_eigvecs) as [E | E]; [left; exact E | ].
+  right. exists e. split; [exact He | split; [exact E | exact H]].
+Qed.
 
 (* ================================================================== cleanup (uses the extracted attribute sets) *)
 Lemma cleanup_FreqDep_char : forall l k, exists l',
   cleanup FreqDep l k = (l', k, Ret tt) /\
-  (forall s, sl l' s = match slot_kind s with KFI => sl l s | _ => None end) /\
+  (forall s, sl l' s = match slot_kind s with KFI | KE => sl l s | _ => None end) /\
   (forall key, di l' key = if key_fd key then None else di l key).
 Proof.
   intros [s d n t] k. eexists. split; [vm_compute; reflexivity | ].
@@ -213,7 +264,7 @@ Qed.
 Lemma cleanup_Conservative_char : forall l k, exists l',
   cleanup Conservative l k = (l', k, Ret tt) /\
   (forall s, sl l' s = match s with S_eigvals | S_eigvecs | S_propagators => None | _ => sl l s end) /\
-  (forall key, di l' key = di l key).
+  (forall key, di l' key = None).
 Proof.
   intros [s d n t] k. eexists. split; [vm_compute; reflexivity | ].
   split; intros x; destruct x; reflexivity.
@@ -238,12 +289,15 @@ Proof.
   split; intros x; destruct x; reflexivity.
 Qed.
 
-(* removing values keeps an object coherent as long as _omega is not removed alone *)
+(* removing values keeps an object coherent as long as _omega is not removed alone, the eigen-data is removed
+   as a whole, and the eigenbasis-dependent intermediates go with it *)
 Lemma LCG_clear : forall g l l', LCG g l ->
   (forall s, sl l' s = None \/ sl l' s = sl l s) -> (forall k, di l' k = None \/ di l' k = di l k) ->
-  (sl l' S_omega = sl l S_omega \/ FDNone (sl l') (di l')) -> LCG g l'.
+  (sl l' S_omega = sl l S_omega \/ FDNone (sl l') (di l')) ->
+  Trio (sl l') -> (sl l' S_eigvecs = None -> EKeysNone (di l')) -> LCG g l'.
 Proof.
-  intros g l l' [[Hs Hk] Hn] Cs Ck Ho. split; [split | ].
+  intros g l l' [e [[He [[Hs Hk] [_ _]]] Hn]] Cs Ck Ho Ht Hen. exists e.
+  split; [split; [exact He | split; [split | split; assumption]] | ].
   - intros x. destruct (Cs x) as [-> | ->]; [left; reflexivity | apply Hs].
   - intros x. destruct (Ck x) as [-> | ->]; [left; reflexivity | apply Hk].
   - intros Hnone. destruct Ho as [Ho | Ho]; [ | exact Ho].
@@ -256,44 +310,57 @@ Lemma wp_of_eq : forall A (m : M A) (Q : A -> lst -> Prop) (E : exn -> lst -> Pr
   (forall k, exists l' a, m l k = (l', k, Ret a) /\ Q a l') -> wp m Q E l.
 Proof. intros A m Q E l H k. destruct (H k) as [l' [a [-> HQ]]]. exact HQ. Qed.
 
+Lemma LCG_Trio : forall g l, LCG g l -> Trio (sl l) /\ (sl l S_eigvecs = None -> EKeysNone (di l)).
+Proof. intros g l [e [[_ [_ H]] _]]; exact H. Qed.
+
 Lemma wp_cleanup_any : forall m g l (Q : unit -> lst -> Prop) (E : exn -> lst -> Prop),
   LCG g l -> (forall l', LCG g l' -> Q tt l') -> wp (cleanup m) Q E l.
 Proof.
-  intros m g l Q E H HQ. apply wp_of_eq. intros k. destruct m.
+  intros m g l Q E H HQ. apply wp_of_eq. intros k. destruct (LCG_Trio g l H) as [Ht Hen]. destruct m.
   - destruct (cleanup_Conservative_char l k) as [l' [-> [Cs Ck]]]. exists l', tt. split; [reflexivity | ].
     apply HQ. apply (LCG_clear g l l' H).
     + intros s; rewrite Cs; destruct s; auto.
     + intros x; rewrite Ck; auto.
     + left; rewrite Cs; reflexivity.
+    + left. rewrite !Cs. auto.
+    + intros _. unfold EKeysNone. rewrite !Ck. auto.
   - destruct (cleanup_Greedy_char l k) as [l' [-> [Cs Ck]]]. exists l', tt. split; [reflexivity | ].
     apply HQ. apply (LCG_clear g l l' H).
     + intros s; rewrite Cs; destruct s; auto.
     + intros x; rewrite Ck; auto.
     + left; rewrite Cs; reflexivity.
+    + left. rewrite !Cs. auto.
+    + intros _. unfold EKeysNone. rewrite !Ck. auto.
   - destruct (cleanup_FreqDep_char l k) as [l' [-> [Cs Ck]]]. exists l', tt. split; [reflexivity | ].
     apply HQ. apply (LCG_clear g l l' H).
     + intros s; rewrite Cs; destruct (slot_kind s); auto.
     + intros x; rewrite Ck; destruct (key_fd x); auto.
     + right; split; [intros s K; rewrite Cs, K; reflexivity | intros x K; rewrite Ck, K; reflexivity].
+    + unfold Trio. rewrite !Cs. exact Ht.
+    + rewrite Cs. simpl. intros E0. destruct (Hen E0) as [E1 [E2 E3]]. unfold EKeysNone. rewrite !Ck. simpl.
+      auto.
   - destruct (cleanup_CleanAll_char l k) as [l' [-> [Cs Ck]]]. exists l', tt. split; [reflexivity | ].
     apply HQ. apply (LCG_clear g l l' H).
     + intros s; rewrite Cs; destruct s; auto.
     + intros x; rewrite Ck; auto.
     + right; split; [intros s K; rewrite Cs; destruct s; try reflexivity; discriminate K | intros x _; apply Ck].
+    + left. rewrite !Cs. auto.
+    + intros _. unfold EKeysNone. rewrite !Ck. auto.
 Qed.
 
 (* cleanup('frequency dependent') makes the object coherent for every grid, whatever was cached *)
 Lemma wp_cleanup_fd : forall g0 l (Q : unit -> lst -> Prop) (E : exn -> lst -> Prop),
   LP g0 l -> (forall l', (forall g, LCG g l') -> sl l' S_omega = None -> Q tt l') -> wp (cleanup FreqDep) Q E l.
 Proof.
-  intros g0 l Q E [Hs Hk] HQ. apply wp_of_eq. intros k.
+  intros g0 l Q E [e [He [[Hs Hk] [Ht Hen]]]] HQ. apply wp_of_eq. intros k.
   destruct (cleanup_FreqDep_char l k) as [l' [-> [Cs Ck]]]. exists l', tt. split; [reflexivity | ].
   apply HQ; [ | rewrite Cs; reflexivity].
-  intros g. split; [split | intros _; split].
-  - intros x. rewrite Cs. destruct (slot_kind x) eqn:K; try (left; reflexivity).
-    specialize (Hs x). rewrite K in Hs. exact Hs.
-  - intros x. rewrite Ck. unfold key_kind. specialize (Hk x). unfold key_kind in Hk.
-    destruct (key_fd x); [left; reflexivity | exact Hk].
+  intros g. exists e. split; [split; [exact He | split; [split | split]] | intros _; split].
+  - intros x. rewrite Cs. destruct (slot_kind x) eqn:K; try (left; reflexivity);
+      specialize (Hs x); rewrite K in Hs; exact Hs.
+  - intros x. rewrite Ck. specialize (Hk x). destruct x; simpl in *; try (left; reflexivity); exact Hk.
+  - unfold Trio. rewrite !Cs. exact Ht.
+  - rewrite Cs. simpl. intros E0. destruct (Hen E0) as [E1 [E2 E3]]. unfold EKeysNone. rewrite !Ck. simpl. auto.
   - intros x K. rewrite Cs, K. reflexivity.
   - intros x K. rewrite Ck, K. reflexivity.
 Qed.
@@ -321,7 +388,7 @@ Proof.
 Qed.
 Lemma guard_noop : forall g l k, LP g l -> guard fixed g l k = (l, k, Ret tt).
 Proof.
-  intros g l k [Hs _]. unfold guard, bind, is_cached, omega_equal, bind, getslot, ret. simpl.
+  intros g l k [e [_ [[Hs _] _]]]. unfold guard, bind, is_cached, omega_equal, bind, getslot, ret. simpl.
   destruct (Hs S_omega) as [-> | ->]; simpl; [reflexivity | rewrite grid_eqb_refl; reflexivity].
 Qed.
 Lemma wp_guard_LP : forall g l (Q : unit -> lst -> Prop) (E : exn -> lst -> Prop),
@@ -334,39 +401,107 @@ Hypothesis Hinj : forall lab, allowed (E_injected lab).
 Definition EA (e : exn) (l : lst) : Prop := LC l /\ allowed e.
 
 (* predicates that survive filling a frequency-independent slot and logging a routine call *)
+(* what numeric.diagonalize installs *)
+Definition diagL (l : lst) : lst :=
+  setL (setL (setL l S_eigvals (Some TI)) S_eigvecs (Some TI)) S_propagators (Some TI).
+
 Definition stable (P : lst -> Prop) : Prop :=
-  (forall l s, slot_kind s = KFI -> P l -> P (setL l s (Some TI))) /\
-  (forall l lab, P l -> P (logL l lab)) /\ (forall l, P l -> LC l).
+  (forall l s, slot_kind s = KFI -> s <> S_propagators -> P l -> P (setL l s (Some TI))) /\
+  (forall l lab, P l -> P (logL l lab)) /\ (forall l, P l -> LC l) /\
+  (forall l, P l -> sl l S_eigvecs = None -> P (diagL l)).
+
+(* re-diagonalization when no eigen-data is cached: the decomposition becomes the canonical one; nothing
+   expressed in another decomposition can be around (Trio, EKeysNone) *)
+Lemma diagL_char : forall l x,
+  sl (diagL l) x = match x with S_eigvals | S_eigvecs | S_propagators => Some TI | _ => sl l x end.
+Proof. intros l x; destruct x; reflexivity. Qed.
+Lemma OP_diag : forall g e l, OP g e (sl l) (di l) -> sl l S_eigvecs = None -> OP g TI (sl (diagL l)) (di l).
+Proof.
+  intros g e l [He [[Hs Hk] [Ht Hen]]] E0. destruct (Hen E0) as [K1 [K2 K3]].
+  split; [left; reflexivity | split; [split | split]].
+  - intros x. rewrite diagL_char. destruct x; try (right; reflexivity);
+      first [exact (Hs S_t) | exact (Hs S_tau) | exact (Hs S_omega) | exact (Hs S_total_phases)
+            | exact (Hs S_total_propagator) | exact (Hs S_total_propagator_liouville) | exact (Hs S_control_matrix)
+            | exact (Hs S_control_matrix_pc) | exact (Hs S_filter_function) | exact (Hs S_filter_function_gen)
+            | exact (Hs S_filter_function_pc) | exact (Hs S_filter_function_pc_gen) | exact (Hs S_filter_function_2)].
+  - intros k. destruct k; try (left; assumption);
+      first [exact (Hk K_phase_factors) | exact (Hk K_control_matrix_step)].
+  - right. rewrite !diagL_char. repeat split; discriminate.
+  - rewrite diagL_char. discriminate.
+Qed.
+Lemma diagL_other : forall l x, x <> S_eigvals -> x <> S_eigvecs -> x <> S_propagators -> sl (diagL l) x = sl l x.
+Proof. intros l x N1 N2 N3. rewrite diagL_char. destruct x; try reflexivity; contradiction. Qed.
+Lemma LCG_diag : forall g l, LCG g l -> sl l S_eigvecs = None -> LCG g (diagL l).
+Proof.
+  intros g l [e [H Hn]] E0. exists TI. split; [apply (OP_diag g e l H E0) | ].
+  rewrite diagL_other by discriminate. intros Ho. destruct (Hn Ho) as [Fs Fk]. split; [ | exact Fk].
+  intros x K. rewrite diagL_other by (intros ->; discriminate K). apply Fs, K.
+Qed.
+Lemma LCO_diag : forall g l, LCO g l -> sl l S_eigvecs = None -> LCO g (diagL l).
+Proof.
+  intros g l [e [H Ho]] E0. exists TI. split; [apply (OP_diag g e l H E0) | ].
+  rewrite diagL_other by discriminate. exact Ho.
+Qed.
+
 Lemma stable_LCG : forall g, stable (LCG g).
-Proof. intros g; split; [intros; apply LCG_set_fi; assumption | split; [intros; assumption | apply LCG_LC]]. Qed.
+Proof.
+  intros g; split; [intros; apply LCG_set_fi; assumption | split; [intros; assumption | split; [apply LCG_LC | apply LCG_diag]]].
+Qed.
 Lemma stable_LCO : forall g, stable (LCO g).
-Proof. intros g; split; [intros; apply LCO_set_fi; assumption | split; [intros; assumption | apply LCO_LC]]. Qed.
+Proof.
+  intros g; split; [intros; apply LCO_set_fi; assumption | split; [intros; assumption | split; [apply LCO_LC | apply LCO_diag]]].
+Qed.
 Lemma stable_LC : stable LC.
 Proof.
-  split; [ | split; [intros; assumption | auto]].
-  intros l s K [g H]. exists g. apply (LCG_set_fi g l s K H).
+  split; [ | split; [intros; assumption | split; [auto | ]]].
+  - intros l s K N [g [e H]]. apply (LCG_LC g). apply (LCG_set_fi g l s K N). exists e; exact H.
+  - intros l [g [e H]] E0. apply (LCG_LC g). apply LCG_diag; [exists e; exact H | exact E0].
+Qed.
+(* a predicate together with "the eigen-data is cached" *)
+Lemma stable_with_eig : forall P, stable P -> stable (fun l => P l /\ sl l S_eigvecs <> None).
+Proof.
+  intros P [Hset [Hlog [HLC Hdiag]]]. split; [ | split; [ | split]].
+  - intros l s K N [HP Hne]. split; [apply Hset; assumption | ]. simpl.
+    rewrite upd_other; [exact Hne | intros ->; discriminate K].
+  - intros l lab [HP Hne]. split; [apply Hlog, HP | exact Hne].
+  - intros l [HP _]. apply HLC, HP.
+  - intros l [_ Hne] E0. contradiction.
 Qed.
 
 Ltac wraise HP Hlog HLC := apply wp_may_raise; [split; [apply HLC, Hlog, HP | apply Hinj] | ].
 
 Lemma wp_t_prop : forall P (Q : unit -> lst -> Prop) l, stable P -> P l -> (forall l', P l' -> Q tt l') -> wp t_prop Q EA l.
 Proof.
-  intros P Q l [Hset [Hlog HLC]] HP HQ. unfold t_prop. wnext.
-  destruct (sl l S_t); [apply wp_ret, HQ, HP | apply wp_setslot, HQ, Hset; [reflexivity | exact HP]].
+  intros P Q l [Hset [Hlog [HLC _]]] HP HQ. unfold t_prop. wnext.
+  destruct (sl l S_t); [apply wp_ret, HQ, HP | apply wp_setslot, HQ, Hset; [reflexivity | discriminate | exact HP]].
 Qed.
 Lemma wp_tau_prop : forall P (Q : unit -> lst -> Prop) l, stable P -> P l -> (forall l', P l' -> Q tt l') -> wp tau_prop Q EA l.
 Proof.
-  intros P Q l [Hset [Hlog HLC]] HP HQ. unfold tau_prop. apply wp_setslot, HQ, Hset; [reflexivity | exact HP].
+  intros P Q l [Hset [Hlog [HLC _]]] HP HQ. unfold tau_prop. apply wp_setslot, HQ, Hset; [reflexivity | discriminate | exact HP].
+Qed.
+Lemma LC_Trio : forall l, LC l -> Trio (sl l).
+Proof. intros l [g [e [[_ [_ [H _]]] _]]]; exact H. Qed.
+(* diagonalize: afterwards the eigen-data is cached *)
+Lemma wp_diagonalize_eig : forall P (Q : unit -> lst -> Prop) l, stable P -> P l ->
+  (forall l', P l' -> sl l' S_eigvecs <> None -> Q tt l') -> wp diagonalize Q EA l.
+Proof.
+  intros P Q l [Hset [Hlog [HLC Hdiag]]] HP HQ. unfold diagonalize. wnext. wnext. wnext.
+  apply wp_seq with (R := fun _ l' => P l' /\ sl l' S_eigvecs <> None).
+  - destruct (LC_Trio l (HLC l HP)) as [[E1 [E2 E3]] | [N1 [N2 N3]]].
+    + rewrite E1, E2, E3. cbn [andb].
+      apply wp_bind. wraise HP Hlog HLC. cbv beta.
+      wnext. wnext. apply wp_setslot.
+      change (setL (setL (setL (logL l L_diag) S_eigvals (Some TI)) S_eigvecs (Some TI)) S_propagators (Some TI))
+        with (diagL (logL l L_diag)).
+      split; [apply Hdiag; [apply Hlog, HP | exact E2] | ].
+      rewrite diagL_char. discriminate.
+    + destruct (sl l S_eigvals); [ | contradiction]. destruct (sl l S_eigvecs) eqn:E2; [ | contradiction].
+      destruct (sl l S_propagators); [ | contradiction]. cbn [andb]. apply wp_ret. split; [exact HP | rewrite E2; discriminate].
+  - intros _ l' [HP' Hne]. apply wp_setslot, HQ; [apply Hset; [reflexivity | discriminate | exact HP'] | ].
+    simpl. rewrite upd_other by discriminate. exact Hne.
 Qed.
 Lemma wp_diagonalize : forall P (Q : unit -> lst -> Prop) l, stable P -> P l -> (forall l', P l' -> Q tt l') -> wp diagonalize Q EA l.
-Proof.
-  intros P Q l [Hset [Hlog HLC]] HP HQ. unfold diagonalize. wnext. wnext. wnext.
-  apply wp_seq with (R := fun _ l' => P l').
-  - destruct (_ && _ && _); [apply wp_ret, HP | ].
-    apply wp_bind. wraise HP Hlog HLC. cbv beta.
-    wnext. wnext. apply wp_setslot. repeat (apply Hset; [reflexivity | ]). apply Hlog, HP.
-  - intros _ l' HP'. apply wp_setslot, HQ, Hset; [reflexivity | exact HP'].
-Qed.
+Proof. intros P Q l HS HP HQ. apply (wp_diagonalize_eig P); [exact HS | exact HP | intros l' H' _; apply HQ, H']. Qed.
 Lemma wp_lazy_prop : forall s P (Q : unit -> lst -> Prop) l, stable P -> P l -> (forall l', P l' -> Q tt l') -> wp (lazy_prop s) Q EA l.
 Proof.
   intros s P Q l HS HP HQ. unfold lazy_prop. wnext.
@@ -377,9 +512,9 @@ Proof.
   intros P Q l HS HP HQ. unfold tpl_prop. wnext.
   destruct (sl l S_total_propagator_liouville); [apply wp_ret, HQ, HP | ].
   apply wp_bind. apply (wp_lazy_prop _ P); [exact HS | exact HP | ]. intros l1 HP1. cbv beta.
-  destruct HS as [Hset [Hlog HLC]].
+  destruct HS as [Hset [Hlog [HLC _]]].
   apply wp_bind. wraise HP1 Hlog HLC. cbv beta.
-  apply wp_setslot, HQ, Hset; [reflexivity | apply Hlog, HP1].
+  apply wp_setslot, HQ, Hset; [reflexivity | discriminate | apply Hlog, HP1].
 Qed.
 
 (* cache_total_phases(omega) with computed or correct user data: coherent -> coherent with _omega = g *)
@@ -420,7 +555,7 @@ Proof.
   - destruct (grid_eqb g' g) eqn:Eg.
     + apply grid_eqb_eq in Eg. subst g'. apply wp_bind. wprim.
       destruct (sl l S_total_phases) eqn:Et.
-      * apply wp_ret. apply HQ; [exact Hg | simpl; apply (LP_read g l S_total_phases); [apply LCO_LP, Hg | exact Et] | intros _; exact Ho].
+      * apply wp_ret. apply HQ; [exact Hg | simpl; apply (LP_read g l S_total_phases); [apply LCO_LP, Hg | reflexivity | exact Et] | intros _; exact Ho].
       * apply Hcomp. eapply LCO_LC, Hg.
     + apply wp_bind. apply wp_bind. apply (wp_cleanup_fd g'); [apply LCO_LP, Hg | ]. intros l1 H1 _. cbv beta.
       apply wp_ret. apply Hcomp. eapply LCG_LC, (H1 g).
@@ -428,22 +563,25 @@ Qed.
 
 (* predicates that survive every correct assignment for grid g (while _omega = g) *)
 Definition stableG (g : grid) (P : lst -> Prop) : Prop :=
-  (forall l s, P l -> P (setL l s (Some (want g (slot_kind s))))) /\
-  (forall l lab, P l -> P (logL l lab)) /\ (forall l, P l -> LCO g l).
+  (forall l s, plain_slot s = true -> P l -> P (setL l s (Some (want0 g (slot_kind s))))) /\
+  (forall l lab, P l -> P (logL l lab)) /\ (forall l, P l -> LCO g l) /\
+  (forall l, P l -> sl l S_eigvecs = None -> P (diagL l)).
 Lemma stableG_stable : forall g P, stableG g P -> stable P.
 Proof.
-  intros g P [Hset [Hlog HL]]. split; [ | split; [exact Hlog | intros l H; eapply LCO_LC, HL, H]].
-  intros l s K H. pose proof (Hset l s H) as H'. rewrite K in H'. exact H'.
+  intros g P [Hset [Hlog [HL Hdiag]]]. split; [ | split; [exact Hlog | split; [intros l H; eapply LCO_LC, HL, H | exact Hdiag]]].
+  intros l s K N H. pose proof (Hset l s (fi_plain s K N) H) as H'. rewrite K in H'. exact H'.
 Qed.
 Lemma stableG_LCO : forall g, stableG g (LCO g).
-Proof. intros g. split; [intros; apply LCO_set; assumption | split; [intros; assumption | auto]]. Qed.
+Proof. intros g. split; [intros; apply LCO_set; assumption | split; [intros; assumption | split; [auto | apply LCO_diag]]]. Qed.
 Definition PX (g : grid) (X : slot) (l : lst) : Prop := LCO g l /\ sl l X = Some (TF g).
-Lemma stableG_PX : forall g X, slot_kind X <> KFI -> stableG g (PX g X).
+Lemma stableG_PX : forall g X, slot_kind X = KFD -> stableG g (PX g X).
 Proof.
-  intros g X K. split; [ | split; [intros l lab H; exact H | intros l [H _]; exact H]].
-  intros l s [H E]. split; [apply LCO_set, H | ]. simpl.
-  destruct (upd_cases _ (sl l) s X (Some (want g (slot_kind s)))) as [[-> ->] | [_ ->]]; [ | exact E].
-  destruct (slot_kind X); try reflexivity. contradiction.
+  intros g X K. split; [ | split; [intros l lab H; exact H | split; [intros l [H _]; exact H | ]]].
+  - intros l s Hp [H E]. split; [apply LCO_set; assumption | ]. simpl.
+    destruct (upd_cases _ (sl l) s X (Some (want0 g (slot_kind s)))) as [[-> ->] | [_ ->]]; [ | exact E].
+    rewrite K. reflexivity.
+  - intros l [H E] E0. split; [apply LCO_diag; assumption | ].
+    rewrite diagL_other by (intros ->; discriminate K). exact E.
 Qed.
 
 Lemma wp_cache_total_phases_G : forall g P (Q : unit -> lst -> Prop) l,
@@ -451,12 +589,12 @@ Lemma wp_cache_total_phases_G : forall g P (Q : unit -> lst -> Prop) l,
   wp (cache_total_phases fixed g None) Q EA l.
 Proof.
   intros g P Q l HS HP HQ. unfold cache_total_phases.
-  pose proof (stableG_stable g P HS) as HS'. destruct HS as [Hset [Hlog HL]].
+  pose proof (stableG_stable g P HS) as HS'. destruct HS as [Hset [Hlog [HL _]]].
   apply wp_bind. apply wp_guard_LP; [apply LCO_LP, HL, HP | ]. cbv beta.
   apply wp_bind. apply wp_bind. apply (wp_tau_prop P); [exact HS' | exact HP | ]. intros l2 H2. cbv beta.
   apply wp_bind. apply wp_may_raise; [split; [eapply LCO_LC, HL, Hlog, H2 | apply Hinj] | ]. cbv beta.
   apply wp_ret. wnext. apply wp_setslot, HQ; [ | reflexivity].
-  apply (Hset _ S_total_phases). apply (Hset _ S_omega). apply Hlog, H2.
+  apply (Hset _ S_total_phases eq_refl). apply (Hset _ S_omega eq_refl). apply Hlog, H2.
 Qed.
 
 (* cache_control_matrix from "self.omega = omega" on *)
@@ -469,7 +607,7 @@ Proof.
   pose proof (LP_set_omega g l H) as H1.
   apply wp_bind. apply wp_may_raise; [split; [eapply LCO_LC, H1 | apply Hinj] | ]. cbv beta.
   set (X := if b then S_control_matrix_pc else S_control_matrix).
-  assert (KX : slot_kind X <> KFI) by (unfold X; destruct b; discriminate).
+  assert (KX : slot_kind X = KFD) by (unfold X; destruct b; reflexivity).
   apply wp_seq with (R := fun _ l' => PX g X l').
   - unfold X. destruct b; apply wp_setslot; (split; [apply LCO_set_fd; [reflexivity | exact H1] | reflexivity]).
   - intros _ l2 H2. apply wp_bind.
@@ -495,13 +633,17 @@ Proof.
   apply wp_cache_cm_rest; [apply LCG_LP, H1 | assumption].
 Qed.
 
-Lemma wp_update_intermediates : forall g (Q : unit -> lst -> Prop) (E : exn -> lst -> Prop) l,
-  LP g l -> (forall l', LP g l' -> Q tt l') -> wp (update_intermediates g TI) Q E l.
+(* _intermediates.update: the arrays are expressed in the cached decomposition *)
+Lemma wp_update_intermediates : forall g t (Q : unit -> lst -> Prop) (E : exn -> lst -> Prop) l,
+  LP g l -> sl l S_eigvecs = Some t -> (forall l', LP g l' -> Q tt l') -> wp (update_intermediates g t) Q E l.
 Proof.
-  intros g Q E l H HQ. unfold update_intermediates. wnext. wnext. wnext. wnext. apply wp_setkey, HQ.
-  apply (LP_setkey g _ K_control_matrix_step). apply (LP_setkey g _ K_first_order_integral).
-  apply (LP_setkey g _ K_phase_factors). apply (LP_setkey g _ K_basis_transformed).
-  apply (LP_setkey g _ K_n_opers_transformed). exact H.
+  intros g t Q E l [e [He [[Hs Hk] [Ht Hen]]]] Ev HQ. unfold update_intermediates.
+  wnext. wnext. wnext. wnext. apply wp_setkey, HQ.
+  assert (t = e) as ->.
+  { destruct (Hs S_eigvecs) as [H | H]; rewrite Ev in H; [discriminate | injection H; auto]. }
+  exists e. split; [exact He | split; [split; [exact Hs | ] | split; [exact Ht | ]]].
+  - intros k. destruct k; simpl; try (right; reflexivity).
+  - simpl. intros E0. rewrite Ev in E0. discriminate.
 Qed.
 
 Lemma wp_get_cm : forall g ci (Q : tag * how -> lst -> Prop) l,
@@ -515,15 +657,15 @@ Proof.
          cache_cm_given fixed g (TF g) false;;; v <- getslot S_control_matrix;;
          ret (match v with Some v => v | None => TI end, Computed)) Q EA l1).
   { intros l1 H1. apply wp_bind.
-    apply (wp_diagonalize (LCG g)); [apply stable_LCG | exact H1 | ]. intros l2 H2. cbv beta.
-    apply wp_bind. apply (wp_t_prop (LCG g)); [apply stable_LCG | exact H2 | ]. intros l3 H3. cbv beta.
+    set (PE := fun l => LCG g l /\ sl l S_eigvecs <> None).
+    assert (SPE : stable PE) by (apply stable_with_eig, stable_LCG).
+    apply (wp_diagonalize_eig (LCG g)); [apply stable_LCG | exact H1 | ]. intros l2 H2 N2. cbv beta.
+    apply wp_bind. apply (wp_t_prop PE); [exact SPE | split; assumption | ]. intros l3 [H3 N3]. cbv beta.
     apply wp_bind. apply wp_may_raise; [split; [eapply LCG_LC, H3 | apply Hinj] | ]. cbv beta.
     wnext. change (sl (logL l3 L_cm) S_eigvecs) with (sl l3 S_eigvecs).
-    assert (Hev : eig_tag_of (sl l3 S_eigvecs) = TI).
-    { destruct H3 as [[Hs _] _]. destruct (Hs S_eigvecs) as [-> | ->]; reflexivity. }
-    rewrite Hev.
+    destruct (sl l3 S_eigvecs) as [t3 | ] eqn:Ev; [ | contradiction]. cbn [eig_tag_of].
     apply wp_seq with (R := fun _ l' => LP g l').
-    - destruct ci; [apply wp_update_intermediates; [apply LCG_LP, H3 | auto] | apply wp_ret, LCG_LP, H3].
+    - destruct ci; [apply wp_update_intermediates; [apply LCG_LP, H3 | exact Ev | auto] | apply wp_ret, LCG_LP, H3].
     - intros _ l4 H4. apply wp_bind. apply wp_cache_cm_given_LP; [exact H4 | ]. intros l5 H5 E5. cbv beta.
       wnext. apply wp_ret. rewrite E5. apply HQ; [exact H5 | reflexivity | simpl; congruence]. }
   destruct (LC_cases l g H) as [[Ho Hg] | [g' [Ho Hg]]]; rewrite Ho; cbv iota beta.
@@ -532,10 +674,10 @@ Proof.
   - destruct (grid_eqb g' g) eqn:Eg.
     + apply grid_eqb_eq in Eg. subst g'. apply wp_bind. wnext.
       destruct (sl l S_control_matrix) eqn:Ec.
-      * apply wp_ret, wp_ret. apply HQ; [exact Hg | simpl; apply (LP_read g l S_control_matrix); [apply LCO_LP, Hg | exact Ec] | intros _; exact Ho].
+      * apply wp_ret, wp_ret. apply HQ; [exact Hg | simpl; apply (LP_read g l S_control_matrix); [apply LCO_LP, Hg | reflexivity | exact Ec] | intros _; exact Ho].
       * wnext. destruct (sl l S_control_matrix_pc) eqn:Ep.
         -- apply wp_bind. apply wp_may_raise; [split; [eapply LCO_LC, Hg | apply Hinj] | ]. cbv beta.
-           pose proof (LP_read g l S_control_matrix_pc t (LCO_LP g l Hg) Ep) as Et. simpl in Et. subst t.
+           pose proof (LP_read g l S_control_matrix_pc t (LCO_LP g l Hg) eq_refl Ep) as Et. subst t.
            wnext. apply wp_ret, wp_ret. apply HQ; [ | reflexivity | intros _; exact Ho].
            apply (LCO_set_fd g _ S_control_matrix); [reflexivity | exact Hg].
         -- apply wp_ret. apply Hcomp, LCO_LCG, Hg.
@@ -558,9 +700,9 @@ Qed.
 
 Lemma LC_fd_some : forall l s v, LC l -> slot_kind s = KFD -> sl l s = Some v -> exists g, LCO g l /\ v = TF g.
 Proof.
-  intros l s v H K E. destruct (LC_cases l (0, 0) H) as [[Ho [_ Hn]] | [g [Ho Hg]]].
+  intros l s v H K E. destruct (LC_cases l (0, 0) H) as [[Ho [e [_ Hn]]] | [g [Ho Hg]]].
   - destruct (Hn Ho) as [Fs _]. rewrite (Fs s K) in E. discriminate.
-  - exists g. split; [exact Hg | ]. pose proof (LP_read g l s v (LCO_LP g l Hg) E) as Hv. rewrite K in Hv. exact Hv.
+  - exists g. split; [exact Hg | ]. exact (LP_read g l s v (LCO_LP g l Hg) K E).
 Qed.
 
 Definition pc_post (l : lst) (Q : tag * how -> lst -> Prop) : Prop :=
@@ -570,7 +712,7 @@ Lemma wp_get_pccm : forall (Q : tag * how -> lst -> Prop) l,
   allowed E_calc -> LC l -> pc_post l Q -> wp get_pccm Q EA l.
 Proof.
   intros Q l Hc H HQ. unfold get_pccm. wnext. destruct (sl l S_control_matrix_pc) eqn:Ec.
-  - destruct (LC_fd_some l S_control_matrix_pc t H eq_refl Ec) as [g [Hg ->]]. apply wp_ret. apply (HQ _ _ g); [exact Hg | apply Hg | reflexivity | discriminate].
+  - destruct (LC_fd_some l S_control_matrix_pc t H eq_refl Ec) as [g [Hg ->]]. apply wp_ret. apply (HQ _ _ g); [exact Hg | apply (LCO_omega _ _ Hg) | reflexivity | discriminate].
   - apply wp_raise. split; assumption.
 Qed.
 
@@ -581,11 +723,11 @@ Proof.
   set (X := match w with Fidelity => S_filter_function_pc | Generalized => S_filter_function_pc_gen end).
   assert (KX : slot_kind X = KFD) by (unfold X; destruct w; reflexivity).
   destruct (sl l X) eqn:Ex.
-  - destruct (LC_fd_some l _ t H KX Ex) as [g [Hg ->]]. apply wp_ret. apply (HQ _ _ g); [exact Hg | apply Hg | reflexivity | discriminate].
+  - destruct (LC_fd_some l _ t H KX Ex) as [g [Hg ->]]. apply wp_ret. apply (HQ _ _ g); [exact Hg | apply (LCO_omega _ _ Hg) | reflexivity | discriminate].
   - wnext. destruct (sl l S_control_matrix_pc) eqn:Ec.
     + destruct (LC_fd_some l S_control_matrix_pc t H eq_refl Ec) as [g [Hg ->]].
       apply wp_bind. apply wp_may_raise; [split; [exact H | apply Hinj] | ]. cbv beta.
-      wnext. apply wp_ret. apply (HQ _ _ g); [ | apply Hg | reflexivity | discriminate].
+      wnext. apply wp_ret. apply (HQ _ _ g); [ | apply (LCO_omega _ _ Hg) | reflexivity | discriminate].
       apply (LCO_set_fd g _ X KX). exact Hg.
     + apply wp_raise. split; assumption.
 Qed.
@@ -607,30 +749,57 @@ Proof. intros g. unfold derive. simpl. rewrite grid_eqb_refl. reflexivity. Qed.
 Lemma derive_3 : forall g, derive g [TF g; TI; TF g] = Ret (TF g).
 Proof. intros g. unfold derive. simpl. rewrite grid_eqb_refl. reflexivity. Qed.
 
-Lemma LP_eigvecs : forall g l, LP g l -> eig_tag_of (sl l S_eigvecs) = TI.
-Proof. intros g l [Hs _]. destruct (Hs S_eigvecs) as [-> | ->]; reflexivity. Qed.
+Lemma eig_same_refl : forall e, edec e -> eig_same e e = true.
+Proof. intros e [-> | [n ->]]; simpl; [reflexivity | apply Nat.eqb_refl]. Qed.
+Lemma eig_part_e : forall e, edec e -> eig_part e = Some e.
+Proof. intros e [-> | [n ->]]; reflexivity. Qed.
+Lemma eig_part_foi : forall g e, edec e -> eig_part (foi_tag g e) = Some e.
+Proof. intros g e [-> | [n ->]]; reflexivity. Qed.
+(* arrays expressed in the current decomposition e, other arrays for grid g: the value for g *)
+Lemma derive_eig_ok : forall g e eigs others, edec e ->
+  Forall (fun t => t = e \/ t = foi_tag g e) eigs -> Forall (fun t => t = TF g) others ->
+  derive_eig g e eigs others = Ret (TF g).
+Proof.
+  intros g e eigs others He H1 H2. unfold derive_eig.
+  assert (C : eig_consistent e eigs = true).
+  { unfold eig_consistent. apply forallb_forall. intros t Ht. rewrite Forall_forall in H1.
+    destruct (H1 t Ht) as [-> | ->]; [rewrite eig_part_e by exact He | rewrite eig_part_foi by exact He];
+      apply eig_same_refl, He. }
+  rewrite C. unfold derive.
+  assert (D : forallb (fun t => match t with TF g' | TFE g' _ => grid_eqb g' g | TI | TE _ => true | TBad _ => false end)
+                (eigs ++ others) = true).
+  { apply forallb_forall. intros t Ht. apply in_app_or in Ht. rewrite Forall_forall in H1, H2.
+    destruct Ht as [Ht | Ht].
+    - destruct (H1 t Ht) as [-> | ->]; destruct He as [-> | [n ->]]; simpl; try reflexivity; apply grid_eqb_refl.
+    - rewrite (H2 t Ht). apply grid_eqb_refl. }
+  rewrite D. reflexivity.
+Qed.
 
 Lemma wp_second_order : forall g P (Q : tag -> lst -> Prop) l,
   logstable g P -> P l -> (forall l', P l' -> Q (TF g) l') -> wp (second_order g) Q EA l.
 Proof.
   intros g P Q l [Hlog [HLP HLC]] HP HQ. unfold second_order. wnext. wnext. wnext. wnext.
   apply wp_bind. apply wp_may_raise; [split; [apply HLC, Hlog, HP | apply Hinj] | ]. cbv beta.
-  rewrite (LP_eigvecs g l (HLP l HP)).
-  pose proof (HLP l HP) as [_ Hk].
-  pose proof (Hk K_n_opers_transformed) as Hn. pose proof (Hk K_basis_transformed) as Hb.
-  pose proof (Hk K_control_matrix_step) as Hc. unfold tag_for, key_kind in Hn, Hb, Hc. simpl in Hn, Hb, Hc.
-  assert (Hd : derive_eig g TI
+  assert (Hd : derive_eig g (eig_tag_of (sl l S_eigvecs))
                  ((match di l K_n_opers_transformed with Some t => [t] | None => [] end) ++
                   (match di l K_basis_transformed, di l K_control_matrix_step with
                    | Some tb, Some _ => [tb] | _, _ => [] end))
                  (match di l K_basis_transformed, di l K_control_matrix_step with
                   | Some _, Some tc => [tc] | _, _ => [] end) = Ret (TF g)).
-  { destruct (di l K_n_opers_transformed), (di l K_basis_transformed), (di l K_control_matrix_step);
-      repeat match goal with
-             | H : Some _ = None \/ Some _ = Some _ |- _ => destruct H as [H | H]; [discriminate H | injection H as ->]
-             | H : None = None \/ None = Some _ |- _ => clear H
-             end;
-      unfold derive_eig, eig_consistent, derive; simpl; rewrite ?grid_eqb_refl; reflexivity. }
+  { destruct (LP_eigvecs g l (HLP l HP)) as [E0 | [e [He [Ev [_ [[Hs Hk] [Ht Hen]]]]]]].
+    - (* no eigen-data cached: no eigenbasis-dependent intermediates either *)
+      destruct (HLP l HP) as [e [He [[Hs Hk] [Ht Hen]]]]. destruct (Hen E0) as [K1 [K2 _]].
+      rewrite E0, K1, K2. simpl. apply (derive_eig_ok g TI [] []); [left; reflexivity | constructor | constructor].
+    - rewrite Ev. cbn [eig_tag_of].
+      pose proof (Hk K_n_opers_transformed) as Hn. pose proof (Hk K_basis_transformed) as Hb.
+      pose proof (Hk K_control_matrix_step) as Hc. unfold tag_for, key_kind in Hn, Hb, Hc. simpl in Hn, Hb, Hc.
+      destruct (di l K_n_opers_transformed) as [tn | ], (di l K_basis_transformed) as [tb | ],
+               (di l K_control_matrix_step) as [tc | ];
+        repeat match goal with
+               | H : Some _ = None \/ Some _ = Some _ |- _ => destruct H as [H | H]; [discriminate H | injection H as ->]
+               | H : None = None \/ None = Some _ |- _ => clear H
+               end;
+        (apply derive_eig_ok; [exact He | simpl; repeat constructor | simpl; repeat constructor]). }
   rewrite Hd. apply wp_lift_ret, HQ, Hlog, HP.
 Qed.
 
@@ -707,7 +876,7 @@ Proof.
     + apply grid_eqb_eq in Eg. subst g'. apply wp_bind. wprim.
       destruct (sl l (ff_slot w o)) eqn:Ef.
       * apply wp_ret. apply HQ; [exact Hg | | intros _; exact Ho]. simpl.
-        pose proof (LP_read g l _ t (LCO_LP g l Hg) Ef) as Ht. rewrite ff_slot_fd in Ht. exact Ht.
+        exact (LP_read g l _ t (LCO_LP g l Hg) (ff_slot_fd w o) Ef).
       * apply Hcomp. eapply LCO_LC, Hg.
     + apply wp_bind. apply wp_bind. apply (wp_cleanup_fd g'); [apply LCO_LP, Hg | ]. intros l1 H1 _. cbv beta.
       apply wp_ret. apply Hcomp. eapply LCG_LC, (H1 g).
@@ -716,6 +885,10 @@ Qed.
 Definition computed_post (g : grid) (Q : tag * how -> lst -> Prop) : Prop :=
   forall r l', LCO g l' -> fst r = TF g -> snd r = Computed -> Q r l'.
 
+Lemma wp_lazy_prop_cached : forall s (Q : unit -> lst -> Prop) (E : exn -> lst -> Prop) l,
+  sl l s <> None -> Q tt l -> wp (lazy_prop s) Q E l.
+Proof. intros s Q E l Hne HQ. unfold lazy_prop. wnext. destruct (sl l s); [apply wp_ret, HQ | contradiction]. Qed.
+
 Lemma wp_get_deriv : forall g (Q : tag * how -> lst -> Prop) l,
   LC l -> computed_post g Q -> wp (get_deriv fixed g) Q EA l.
 Proof.
@@ -723,25 +896,46 @@ Proof.
   apply wp_bind, wp_ret.
   apply wp_bind. apply wp_get_cm; [exact H | ]. intros [t h] l1 H1 Er _. simpl in Er. subst t. cbv beta.
   apply wp_bind. wnext. wnext. apply wp_ret.
-  assert (Ha : di l1 K_n_opers_transformed = None \/ di l1 K_n_opers_transformed = Some TI)
-    by (destruct H1 as [[_ Hk] _]; apply (Hk K_n_opers_transformed)).
-  assert (Hb : di l1 K_first_order_integral = None \/ di l1 K_first_order_integral = Some (TF g))
-    by (destruct H1 as [[_ Hk] _]; apply (Hk K_first_order_integral)).
-  generalize dependent (di l1 K_n_opers_transformed). generalize dependent (di l1 K_first_order_integral).
-  intros b Hb a Ha.
-  apply wp_bind. apply (wp_lazy_prop _ (LCO g)); [apply stable_LCO | exact H1 | ]. intros l2 H2. cbv beta.
-  apply wp_bind. apply (wp_lazy_prop _ (LCO g)); [apply stable_LCO | exact H2 | ]. intros l3 H3. cbv beta.
-  apply wp_bind. apply (wp_lazy_prop _ (LCO g)); [apply stable_LCO | exact H3 | ]. intros l4 H4. cbv beta.
-  apply wp_bind. apply (wp_t_prop (LCO g)); [apply stable_LCO | exact H4 | ]. intros l5 H5. cbv beta.
-  wnext. rewrite (LP_eigvecs g l5 (LCO_LP g l5 H5)).
-  apply wp_bind. apply wp_may_raise; [split; [eapply LCO_LC, H5 | apply Hinj] | ]. cbv beta.
-  apply wp_seq with (R := fun v l' => LCO g l' /\ v = TF g).
-  - cbn [fst]. destruct Ha as [-> | ->], Hb as [-> | ->]; rewrite ?derive_1;
-      try (apply wp_lift_ret; (split; [exact H5 | reflexivity])).
-    unfold derive_eig, eig_consistent, derive; simpl; rewrite grid_eqb_refl; simpl.
-    apply wp_lift_ret; (split; [exact H5 | reflexivity]).
-  - intros v l6 [H6 ->]. apply wp_bind. apply wp_may_raise; [split; [eapply LCO_LC, H6 | apply Hinj] | ]. cbv beta.
-    apply wp_ret. apply HQ; [exact H6 | reflexivity | reflexivity].
+  assert (Hfin : forall (v : res tag) l5, LCO g l5 -> v = Ret (TF g) ->
+            wp (v0 <- lift v;; may_raise L_gradff;;; ret (v0, Computed)) Q EA (logL l5 L_grad)).
+  { intros v l5 H5 ->. apply wp_bind, wp_lift_ret.
+    apply wp_bind. apply wp_may_raise; [split; [eapply LCO_LC, H5 | apply Hinj] | ]. cbv beta.
+    apply wp_ret. apply HQ; [exact H5 | reflexivity | reflexivity]. }
+  destruct (LP_eigvecs g l1 (LCO_LP g l1 H1)) as [E0 | [e [He [Ev [_ [[Hs Hk] [Ht Hen]]]]]]].
+  - (* no eigen-data cached (the control matrix was served from the cache after a clean-up): the
+       eigenbasis-dependent intermediates are gone too *)
+    destruct H1 as [e1 [[He1 [[Hs1 Hk1] [Ht1 Hen1]]] Ho1]]. destruct (Hen1 E0) as [K1 [_ K3]].
+    rewrite K1, K3.
+    assert (H1' : LCO g l1) by (exists e1; split; [split; [exact He1 | split; [split; assumption | split; assumption]] | exact Ho1]).
+    apply wp_bind. apply (wp_lazy_prop _ (LCO g)); [apply stable_LCO | exact H1' | ]. intros l2 H2. cbv beta.
+    apply wp_bind. apply (wp_lazy_prop _ (LCO g)); [apply stable_LCO | exact H2 | ]. intros l3 H3. cbv beta.
+    apply wp_bind. apply (wp_lazy_prop _ (LCO g)); [apply stable_LCO | exact H3 | ]. intros l4 H4. cbv beta.
+    apply wp_bind. apply (wp_t_prop (LCO g)); [apply stable_LCO | exact H4 | ]. intros l5 H5. cbv beta.
+    wnext. apply wp_bind. apply wp_may_raise; [split; [eapply LCO_LC, H5 | apply Hinj] | ]. cbv beta.
+    cbn [fst]. apply (Hfin _ l5 H5). apply derive_1.
+  - (* eigen-data cached: the lazy properties do nothing, the intermediates are expressed in that decomposition *)
+    pose proof (Hk K_n_opers_transformed) as Ha. pose proof (Hk K_first_order_integral) as Hb.
+    unfold tag_for, key_kind in Ha, Hb. simpl in Ha, Hb.
+    set (PE := fun l => LCO g l /\ sl l S_eigvecs = Some e /\ sl l S_eigvals <> None /\ sl l S_propagators <> None).
+    assert (HPE : PE l1).
+    { split; [exact H1 | split; [exact Ev | ]]. destruct Ht as [[_ [T2 _]] | [T1 [_ T3]]]; [rewrite Ev in T2; discriminate | split; assumption]. }
+    assert (Hfi : forall l s, slot_kind s = KFI -> s <> S_propagators -> PE l -> PE (setL l s (Some TI))).
+    { intros l0 s K N [A [B [C D]]]. split; [apply LCO_set_fi; assumption | ]. simpl.
+      rewrite !upd_other by (intros ->; first [discriminate K | contradiction]). auto. }
+    generalize dependent (di l1 K_n_opers_transformed). generalize dependent (di l1 K_first_order_integral).
+    intros b Hb a Ha.
+    destruct HPE as [A1 [B1 [C1 D1]]].
+    apply wp_bind. apply wp_lazy_prop_cached; [exact D1 | ]. cbv beta.
+    apply wp_bind. apply wp_lazy_prop_cached; [exact C1 | ]. cbv beta.
+    apply wp_bind. apply wp_lazy_prop_cached; [rewrite B1; discriminate | ]. cbv beta.
+    apply wp_seq with (R := fun _ l' => PE l').
+    + unfold t_prop. wnext. destruct (sl l1 S_t); [apply wp_ret; repeat split; assumption | ].
+      apply wp_setslot. apply Hfi; [reflexivity | discriminate | repeat split; assumption].
+    + intros _ l5 [A5 [B5 _]]. wnext. rewrite B5. cbn [eig_tag_of].
+      apply wp_bind. apply wp_may_raise; [split; [eapply LCO_LC, A5 | apply Hinj] | ]. cbv beta.
+      cbn [fst]. destruct Ha as [-> | ->], Hb as [-> | ->]; apply (Hfin _ l5 A5); try apply derive_1.
+      apply derive_eig_ok; [exact He | | repeat constructor].
+      constructor; [left; reflexivity | constructor; [right; reflexivity | constructor]].
 Qed.
 
 Lemma wp_integrate : forall g P (Q : tag * how -> lst -> Prop) l,
@@ -917,8 +1111,7 @@ Proof.
   - apply wp_noret, (wp_t_prop A LC); [apply stable_LC | exact H | auto].
   - apply wp_noret, (wp_tau_prop A LC); [apply stable_LC | exact H | auto].
   - destruct H as [g Hg]. apply wp_noret. unfold cleanup_user. cbn [m_cleanup_pops_eig fixed].
-    apply wp_bind. apply (wp_cleanup_any m g); [exact Hg | ]. intros l' H'. cbv beta.
-    destruct m; apply wp_ret; eapply LCG_LC, H'.
+    destruct m; (apply (wp_cleanup_any _ g); [exact Hg | intros l' H'; eapply LCG_LC, H']).
   - apply wp_raise. split; [exact H | exact I].
   - apply wp_withret, wp_infidelity; [exact HA | intros _; split; exact I | exact H | intros r l' H' _ _; eapply LCO_LC, H'].
   - apply wp_withret, wp_decay_amplitudes; [exact HA | intros _; split; exact I | exact H | intros r l' H' _ _; eapply LCO_LC, H'].
@@ -1176,7 +1369,20 @@ Proof. intros; unfold updn; destruct (Nat.eqb i j) eqn:E; [apply Nat.eqb_eq in E
 
 Lemma ObjCoh_empty : ObjCoh (fun _ => None) (fun _ => None).
 Proof.
-  exists (0, 0). split; [split; intros; left; reflexivity | intros _; split; intros; reflexivity].
+  exists (0, 0), TI. split; [ | intros _; split; intros; reflexivity].
+  split; [left; reflexivity | split; [split; intros; left; reflexivity | split]].
+  - left. repeat split; reflexivity.
+  - intros _. repeat split; reflexivity.
+Qed.
+(* a pulse made by extend / remap with cached diagonalization: eigen-data in a decomposition of its own *)
+Lemma ObjCoh_extended : ObjCoh extended_slots (fun _ => None).
+Proof.
+  exists (0, 0), (TE 1). split; [ | intros _; split; [intros x K; destruct x; try discriminate K; reflexivity | intros; reflexivity]].
+  split; [right; exists 1; reflexivity | split; [split | split]].
+  - intros x. destruct x; simpl; try (left; reflexivity); right; reflexivity.
+  - intros k. left; reflexivity.
+  - right. simpl. repeat split; discriminate.
+  - simpl. discriminate.
 Qed.
 
 Lemma coherent_init : Coherent init.
@@ -1239,7 +1445,7 @@ Qed.
 (* coherent_step: every operation, every abort point *)
 Lemma coherent_step : forall st c, Coherent st -> gop_ok c = true -> Coherent (step st c).
 Proof.
-  intros st c H Hok. unfold step, step_with, exec. destruct c as [i o k | i | i | | ]; [ | | | | discriminate Hok].
+  intros st c H Hok. unfold step, step_with, exec. destruct c as [i o k | i | i | | ].
   - destruct (Nat.ltb i (nobj st)) eqn:Hi; [ | exact H]. apply Nat.ltb_lt in Hi.
     pose proof (run_op_coherent o (view st i) Hok (view_LC st i H Hi) k) as Hr.
     destruct (run_op fixed o (view st i) k) as [[l k'] [a | e]]; simpl; apply write_back_coherent; assumption.
@@ -1248,6 +1454,7 @@ Proof.
   - destruct (Nat.ltb i (nobj st)) eqn:Hi; [ | exact H]. apply Nat.ltb_lt in Hi. simpl.
     apply add_object_coherent; [exact H | ]. destruct H as [_ [_ Hc]]. apply Hc, Hi.
   - simpl. apply add_object_coherent; [exact H | apply ObjCoh_empty].
+  - simpl. apply add_object_coherent; [exact H | apply ObjCoh_extended].
 Qed.
 
 Theorem all_histories : forall ops, forallb gop_ok ops = true -> Coherent (fold_left step ops init).
@@ -1263,25 +1470,43 @@ Qed.
 Lemma coherent_meaning : forall st i, Coherent st -> i < nobj st ->
   (forall s t, slot_kind s = KFD -> objs st i s = Some t ->
      exists g, objs st i S_omega = Some (TF g) /\ t = TF g) /\
-  (forall k t, key_fd k = true -> dicts st (iref st i) k = Some t ->
+  (forall k t, key_kind k = KFD -> dicts st (iref st i) k = Some t ->
      exists g, objs st i S_omega = Some (TF g) /\ t = TF g) /\
   (forall s t, slot_kind s = KFI -> objs st i s = Some t -> t = TI) /\
-  (forall k t, key_fd k = false -> dicts st (iref st i) k = Some t -> t = TI).
+  (exists e, edec e /\
+     (forall s t, slot_kind s = KE -> objs st i s = Some t -> t = e) /\
+     (forall k t, key_kind k = KE -> dicts st (iref st i) k = Some t ->
+        t = e /\ objs st i S_eigvecs = Some e) /\
+     (forall t, dicts st (iref st i) K_first_order_integral = Some t ->
+        exists g, objs st i S_omega = Some (TF g) /\ t = foi_tag g e /\ objs st i S_eigvecs = Some e)).
 Proof.
   intros st i H Hi. pose proof (view_LC st i H Hi) as Hl. unfold LC, view in Hl. simpl in Hl.
-  destruct Hl as [g [[Hs Hk] Hn]]. repeat split.
+  destruct Hl as [g [e [[He [[Hs Hk] [Ht Hen]]] Hn]]].
+  assert (Hom : forall x, key_fd x = true -> forall t, dicts st (iref st i) x = Some t -> objs st i S_omega = Some (TF g)).
+  { intros x K t E. destruct (objs st i S_omega) eqn:Eo.
+    - pose proof (Hs S_omega) as Ho. rewrite Eo in Ho. destruct Ho as [Ho | Ho]; [discriminate | exact Ho].
+    - destruct (Hn eq_refl) as [_ Fk]. rewrite (Fk x K) in E. discriminate. }
+  assert (Hev : forall x t, (x = K_n_opers_transformed \/ x = K_basis_transformed \/ x = K_first_order_integral) ->
+                dicts st (iref st i) x = Some t -> objs st i S_eigvecs = Some e).
+  { intros x t Hx E. destruct (Hs S_eigvecs) as [E0 | E0]; [ | exact E0].
+    destruct (Hen E0) as [K1 [K2 K3]]. destruct Hx as [-> | [-> | ->]]; congruence. }
+  split; [ | split; [ | split]].
   - intros s t K E. destruct (objs st i S_omega) eqn:Eo.
     + pose proof (Hs S_omega) as Ho. rewrite Eo in Ho. destruct Ho as [Ho | Ho]; [discriminate | ].
       simpl in Ho. injection Ho as ->. exists g. split; [reflexivity | ].
       destruct (Hs s) as [Hx | Hx]; rewrite E in Hx; [discriminate | ]. rewrite K in Hx. injection Hx; auto.
     + destruct (Hn eq_refl) as [Fs _]. rewrite (Fs s K) in E. discriminate.
-  - intros k t K E. destruct (objs st i S_omega) eqn:Eo.
-    + pose proof (Hs S_omega) as Ho. rewrite Eo in Ho. destruct Ho as [Ho | Ho]; [discriminate | ].
-      simpl in Ho. injection Ho as ->. exists g. split; [reflexivity | ].
-      destruct (Hk k) as [Hx | Hx]; rewrite E in Hx; [discriminate | ]. unfold key_kind in Hx. rewrite K in Hx. injection Hx; auto.
-    + destruct (Hn eq_refl) as [_ Fk]. rewrite (Fk k K) in E. discriminate.
+  - intros k t K E. exists g. split; [apply (Hom k ltac:(destruct k; try reflexivity; discriminate K) t E) | ].
+    destruct (Hk k) as [Hx | Hx]; rewrite E in Hx; [discriminate | ]. rewrite K in Hx. injection Hx; auto.
   - intros s t K E. destruct (Hs s) as [Hx | Hx]; rewrite E in Hx; [discriminate | ]. rewrite K in Hx. injection Hx; auto.
-  - intros k t K E. destruct (Hk k) as [Hx | Hx]; rewrite E in Hx; [discriminate | ]. unfold key_kind in Hx. rewrite K in Hx. injection Hx; auto.
+  - exists e. split; [exact He | split; [ | split]].
+    + intros s t K E. destruct (Hs s) as [Hx | Hx]; rewrite E in Hx; [discriminate | ]. rewrite K in Hx. injection Hx; auto.
+    + intros k t K E. split.
+      * destruct (Hk k) as [Hx | Hx]; rewrite E in Hx; [discriminate | ]. rewrite K in Hx. injection Hx; auto.
+      * apply (Hev k t); [destruct k; try discriminate K; auto | exact E].
+    + intros t E. exists g. split; [apply (Hom K_first_order_integral eq_refl t E) | split].
+      * destruct (Hk K_first_order_integral) as [Hx | Hx]; rewrite E in Hx; [discriminate | injection Hx; auto].
+      * apply (Hev K_first_order_integral t); [auto | exact E].
 Qed.
 
 (* ------------------------------------------------------------------ results *)
@@ -1368,17 +1593,24 @@ Definition tag_eqb (a b : tag) : bool :=
   | TI, TI => true | TF g, TF g' => grid_eqb g g' | TBad n, TBad m => Nat.eqb n m
   | TE e, TE e' => Nat.eqb e e' | TFE g e, TFE g' e' => grid_eqb g g' && Nat.eqb e e' | _, _ => false
   end.
-Definition ok_for (g : grid) (k : kind) (v : option tag) : bool :=
-  match v with None => true | Some t => tag_eqb t (want g k) end.
+Definition ok_for (g : grid) (e : tag) (k : kind) (v : option tag) : bool :=
+  match v with None => true | Some t => tag_eqb t (want g e k) end.
 Definition obj_cohb (s : slot -> option tag) (d : ikey -> option tag) : bool :=
+  let e := eig_tag_of (s S_eigvecs) in
+  let trio := (negb (some_b (s S_eigvals)) && negb (some_b (s S_eigvecs)) && negb (some_b (s S_propagators)))
+              || (some_b (s S_eigvals) && some_b (s S_eigvecs) && some_b (s S_propagators)) in
+  let enone := some_b (s S_eigvecs)
+               || (negb (some_b (d K_n_opers_transformed)) && negb (some_b (d K_basis_transformed))
+                   && negb (some_b (d K_first_order_integral))) in
+  trio && enone &&
   match s S_omega with
-  | Some (TF g) => forallb (fun x => ok_for g (slot_kind x) (s x)) all_slots
-                   && forallb (fun k => ok_for g (key_kind k) (d k)) all_keys
+  | Some (TF g) => forallb (fun x => ok_for g e (slot_kind x) (s x)) all_slots
+                   && forallb (fun k => ok_for g e (key_kind k) (d k)) all_keys
   | Some _ => false
   | None => forallb (fun x => match slot_kind x with
-                              | KFI => ok_for (0, 0) KFI (s x)
+                              | KFI | KE => ok_for (0, 0) e (slot_kind x) (s x)
                               | _ => negb (some_b (s x)) end) all_slots
-            && forallb (fun k => if key_fd k then negb (some_b (d k)) else ok_for (0, 0) KFI (d k)) all_keys
+            && forallb (fun k => if key_fd k then negb (some_b (d k)) else ok_for (0, 0) e (key_kind k) (d k)) all_keys
   end.
 Definition coherent_b (st : store) : bool :=
   forallb (fun i => obj_cohb (objs st i) (dicts st (iref st i))) (seq 0 (nobj st)).
@@ -1388,12 +1620,39 @@ Proof.
   destruct t; simpl; [reflexivity | apply grid_eqb_refl | apply Nat.eqb_refl | apply Nat.eqb_refl | ].
   rewrite grid_eqb_refl, Nat.eqb_refl. reflexivity.
 Qed.
-Lemma ok_for_tag_for : forall g k v, tag_for g k v -> ok_for g k v = true.
-Proof. intros g k v [-> | ->]; simpl; [reflexivity | apply tag_eqb_refl]. Qed.
+Lemma ok_for_tag_for : forall g e k v, tag_for g e k v -> ok_for g e k v = true.
+Proof. intros g e k v [-> | ->]; simpl; [reflexivity | apply tag_eqb_refl]. Qed.
+
+(* with no eigen-data cached the decomposition instance is immaterial *)
+Lemma OP_enone_TI : forall g e s d, OP g e s d -> s S_eigvecs = None -> OP g TI s d.
+Proof.
+  intros g e s d [He [[Hs Hk] [Ht Hen]]] E0. destruct (Hen E0) as [K1 [K2 K3]].
+  assert (T1 : s S_eigvals = None) by (destruct Ht as [[T1 _] | [_ [T2 _]]]; [exact T1 | contradiction]).
+  split; [left; reflexivity | split; [split | split; assumption]].
+  - intros x. specialize (Hs x). destruct x; simpl in *; try exact Hs; left; assumption.
+  - intros k. specialize (Hk k). destruct k; simpl in *; try exact Hk; left; assumption.
+Qed.
 
 Lemma obj_cohb_complete : forall s d, ObjCoh s d -> obj_cohb s d = true.
 Proof.
-  intros s d [g [[Hs Hk] Hn]]. unfold obj_cohb. destruct (s S_omega) eqn:Eo.
+  intros s d [g [e0 [H0 Hn]]]. unfold obj_cohb.
+  (* normalise the decomposition instance to the one the checker reads off _eigvecs *)
+  assert (H : OP g (eig_tag_of (s S_eigvecs)) s d).
+  { pose proof H0 as [_ [[Hs _] _]]. destruct (Hs S_eigvecs) as [E | E]; rewrite E; simpl.
+    - apply (OP_enone_TI g e0); assumption.
+    - exact H0. }
+  clear H0. set (e := eig_tag_of (s S_eigvecs)) in *. destruct H as [He [[Hs Hk] [Ht Hen]]].
+  assert (Btrio : (negb (some_b (s S_eigvals)) && negb (some_b (s S_eigvecs)) && negb (some_b (s S_propagators)))
+              || (some_b (s S_eigvals) && some_b (s S_eigvecs) && some_b (s S_propagators)) = true).
+  { destruct Ht as [[-> [-> ->]] | [N1 [N2 N3]]]; [reflexivity | ].
+    destruct (s S_eigvals); [ | contradiction]. destruct (s S_eigvecs); [ | contradiction].
+    destruct (s S_propagators); [ | contradiction]. reflexivity. }
+  assert (Benone : some_b (s S_eigvecs)
+               || (negb (some_b (d K_n_opers_transformed)) && negb (some_b (d K_basis_transformed))
+                   && negb (some_b (d K_first_order_integral))) = true).
+  { destruct (s S_eigvecs) eqn:E; [reflexivity | ]. destruct (Hen eq_refl) as [-> [-> ->]]. reflexivity. }
+  rewrite Btrio, Benone. cbn [andb].
+  destruct (s S_omega) eqn:Eo.
   - pose proof (Hs S_omega) as Ho. rewrite Eo in Ho. destruct Ho as [Ho | Ho]; [discriminate | ].
     simpl in Ho. injection Ho as ->. apply andb_true_iff. split; apply forallb_forall.
     + intros x _. apply ok_for_tag_for, Hs.
@@ -1402,10 +1661,13 @@ Proof.
     + intros x _. destruct (slot_kind x) eqn:K.
       * destruct x; try discriminate K. rewrite Eo. reflexivity.
       * rewrite (Fs x K). reflexivity.
-      * specialize (Hs x). rewrite K in Hs. destruct Hs as [-> | ->]; reflexivity.
+      * specialize (Hs x). rewrite K in Hs. destruct Hs as [-> | ->]; [reflexivity | apply tag_eqb_refl].
+      * specialize (Hs x). rewrite K in Hs. destruct Hs as [-> | ->]; [reflexivity | apply tag_eqb_refl].
+      * destruct x; discriminate K.
     + intros x _. destruct (key_fd x) eqn:K.
       * rewrite (Fk x K). reflexivity.
-      * specialize (Hk x). unfold key_kind in Hk. rewrite K in Hk. destruct Hk as [-> | ->]; reflexivity.
+      * specialize (Hk x). destruct x; try discriminate K; simpl in Hk |- *;
+          (destruct Hk as [-> | ->]; [reflexivity | apply tag_eqb_refl]).
 Qed.
 
 Lemma coherent_b_complete : forall st, Coherent st -> coherent_b st = true.
@@ -1425,7 +1687,7 @@ Definition result_with (mc : mech) (st : store) (c : gop) := snd (fst (exec mc s
 
 (* (a) cache_* methods that do not clear on a change of grid (the code before commit 9802619):
    the control matrix of g1 is served for g2 *)
-Definition no_clear : mech := mkMech false true true false.
+Definition no_clear : mech := mkMech false true true true.
 Definition hist_a : list gop :=
   [Call 0 (GetCM g1 false) never; Call 0 (CacheFF g2 None (Some true) Fidelity First false) never].
 Example cache_clear_needed :
@@ -1437,7 +1699,7 @@ Proof. split; [reflexivity | split; [apply not_coherent; vm_compute; reflexivity
 
 (* (b) shallow copies sharing the _intermediates dict (before commit 35d842e): the copy computes its
    second-order filter function for g1 from the original's intermediates of g2 *)
-Definition shared_dict : mech := mkMech true false true false.
+Definition shared_dict : mech := mkMech true false true true.
 Definition hist_b : list gop := [Call 0 (GetCM g1 true) never; Copy 0; Call 0 (GetCM g2 true) never].
 Example own_dict_needed :
   forallb gop_ok hist_b = true /\
@@ -1455,7 +1717,7 @@ Proof. vm_compute. reflexivity. Qed.
 
 (* (c) get_filter_function_derivative reading the intermediates before requesting the control matrix
    (before commit 031d19d): first-order integral of g1 used for g2; exception for another length *)
-Definition deriv_before : mech := mkMech true true false false.
+Definition deriv_before : mech := mkMech true true false true.
 Definition hist_c : list gop := [Call 0 (GetCM g1 true) never].
 Example deriv_order_needed :
   result_with deriv_before (run_with deriv_before hist_c) (Call 0 (GetDeriv g2) never) = Ret (Some (TBad 4, Computed)) /\
@@ -1471,32 +1733,25 @@ Example correct_user_data_needed :
   result_with fixed (run_with fixed hist_d) (Call 0 (GetCM g1 false) never) = Ret (Some (TBad 4, Served)).
 Proof. split; [reflexivity | split; [apply not_coherent; vm_compute; reflexivity | vm_compute; reflexivity]]. Qed.
 
-(* (e) REFUTED for pulses made by extend(...) with cached diagonalization (eigvals / eigvecs assembled from the
-   inputs' ones: a valid decomposition, not the one numeric.diagonalize returns): the intermediates
-   n_opers_transformed, basis_transformed, first_order_integral are expressed in the cached eigenbasis,
-   cleanup('conservative') drops the eigenbasis but keeps them, the next request re-diagonalizes and combines the
-   old intermediates with the new eigen-data.  Object 1 is the extended pulse.  (Finding c07-eig-intermediates,
-   reproduced on the implementation: relative errors 0.37 / 1.0.) *)
+(* (e) cleanup('conservative') that keeps the intermediates (before commit 9d58c0f): on a pulse made by extend(...)
+   with cached diagonalization (object 1; eigvals / eigvecs assembled from the inputs' ones: a valid
+   decomposition, not the one numeric.diagonalize returns) the intermediates n_opers_transformed,
+   basis_transformed, first_order_integral are expressed in the cached eigenbasis; the clean-up drops the
+   eigenbasis but keeps them, the next request re-diagonalizes and combines them with the new eigen-data
+   (reproduced on the implementation before the repair: relative errors 0.37 / 1.0 / 0.07) *)
+Definition no_reset : mech := mkMech true true true false.
 Definition hist_x : list gop :=
   [FreshExtended; Call 1 (GetCM g1 true) never; Call 1 (Cleanup Conservative) never].
-Example extended_refuted :
-  forallb gop_ok hist_x = false /\
-  result_with fixed (run_with fixed hist_x) (Call 1 (GetFF g1 Fidelity Second false) never) = Ret (Some (TBad 4, Computed)) /\
-  result_with fixed (run_with fixed hist_x) (Call 1 (GetDeriv g1) never) = Ret (Some (TBad 4, Computed)) /\
-  result_with fixed (run_with fixed hist_x) (Call 1 (Cumulant g1 Total true None) never) = Ret (Some (TBad 4, Computed)) /\
-  (* the same requests on the same object without the clean-up, and after it on a plain pulse, are fine *)
-  result_with fixed (run_with fixed [FreshExtended; Call 1 (GetCM g1 true) never])
-              (Call 1 (GetFF g1 Fidelity Second false) never) = Ret (Some (TF g1, Computed)) /\
-  result_with fixed (run_with fixed [Fresh; Call 1 (GetCM g1 true) never; Call 1 (Cleanup Conservative) never])
-              (Call 1 (GetFF g1 Fidelity Second false) never) = Ret (Some (TF g1, Computed)).
-Proof. repeat split; vm_compute; reflexivity. Qed.
-(* with the proposed repair (cleanup('conservative') also drops the three eigenbasis-dependent intermediates)
-   the witnesses give the right values *)
-Example extended_repaired :
-  result_with proposed (run_with proposed hist_x) (Call 1 (GetFF g1 Fidelity Second false) never) = Ret (Some (TF g1, Computed)) /\
-  result_with proposed (run_with proposed hist_x) (Call 1 (GetDeriv g1) never) = Ret (Some (TF g1, Computed)) /\
-  result_with proposed (run_with proposed hist_x) (Call 1 (Cumulant g1 Total true None) never) = Ret (Some (TF g1, Computed)).
-Proof. repeat split; vm_compute; reflexivity. Qed.
+Example cleanup_reset_needed :
+  forallb gop_ok hist_x = true /\
+  ~ Coherent (run_with no_reset hist_x) /\
+  result_with no_reset (run_with no_reset hist_x) (Call 1 (GetFF g1 Fidelity Second false) never) = Ret (Some (TBad 4, Computed)) /\
+  result_with no_reset (run_with no_reset hist_x) (Call 1 (GetDeriv g1) never) = Ret (Some (TBad 4, Computed)) /\
+  result_with no_reset (run_with no_reset hist_x) (Call 1 (Cumulant g1 Total true None) never) = Ret (Some (TBad 4, Computed)) /\
+  result_with fixed (run_with fixed hist_x) (Call 1 (GetFF g1 Fidelity Second false) never) = Ret (Some (TF g1, Computed)) /\
+  result_with fixed (run_with fixed hist_x) (Call 1 (GetDeriv g1) never) = Ret (Some (TF g1, Computed)) /\
+  result_with fixed (run_with fixed hist_x) (Call 1 (Cumulant g1 Total true None) never) = Ret (Some (TF g1, Computed)).
+Proof. split; [reflexivity | split; [apply not_coherent; vm_compute; reflexivity | repeat split; vm_compute; reflexivity]]. Qed.
 
 (* the hypotheses of the theorems are satisfiable on non-trivial stores: a history with intermediates,
    a shallow copy, an aborted call, clean-up, a deep copy *)
@@ -1511,11 +1766,12 @@ Example hypotheses_satisfiable :
 Proof. repeat split; vm_compute; reflexivity. Qed.
 
 (* ================================================================== outside the abstraction: mutable grids *)
-(* The theorems above treat frequency grids as immutable values.  The implementation stores a REFERENCE to the
-   caller's array (omega.setter: np.asarray(value) does not copy), so np.array_equal(self.omega, omega) compares
-   the caller's array with itself after the caller has modified it in place.  Minimal model of that: one array
-   cell owned by the caller, a pulse whose _omega is (a reference to) that cell or None, one cached filter
-   function tagged with the grid it was computed for.  (Finding c07-omega-alias.) *)
+(* The theorems above treat frequency grids as immutable values.  That is justified only because the object keeps
+   a private copy of the frequencies (omega.setter: np.array(value), commit 0d133f1).  Before, it stored a
+   REFERENCE to the caller's array (np.asarray does not copy), so np.array_equal(self.omega, omega) compared the
+   caller's array with itself after the caller had modified it in place.  Minimal model of both: one array cell
+   owned by the caller, a pulse whose _omega is a reference to that cell ([astep]) or a copy ([astep_copy]), one
+   cached filter function tagged with the grid it was computed for. *)
 Record astate := mkA { cell : grid; omega_is_cell : bool; ff_cached : option grid }.
 Inductive aop :=
 | ARequest              (* pulse.get_filter_function(w), w being the caller's array *)
@@ -1531,12 +1787,12 @@ Definition astep (s : astate) (o : aop) : astate * option grid :=
   end.
 Definition ainit (g : grid) : astate := mkA g false None.
 
-Example omega_alias_refuted : forall g g', g <> g' ->
+Example omega_copy_needed : forall g g', g <> g' ->
   let s1 := fst (astep (ainit g) ARequest) in
   let s2 := fst (astep s1 (AMutate g')) in
   cell s2 = g' /\ snd (astep s2 ARequest) = Some g.
 Proof. intros g g' _. split; reflexivity. Qed.
-(* with a private copy (_omega := np.array(value)) the comparison sees the change *)
+(* with a private copy (the current source) the comparison sees the change *)
 Definition astep_copy (s : astate * grid) (o : aop) : (astate * grid) * option grid :=
   let '(a, own) := s in
   match o with
@@ -1548,7 +1804,7 @@ Definition astep_copy (s : astate * grid) (o : aop) : (astate * grid) * option g
       | None => ((mkA (cell a) true (Some (cell a)), cell a), Some (cell a))
       end
   end.
-Example omega_copy_repaired : forall g g', g <> g' ->
+Example omega_copy_works : forall g g', g <> g' ->
   let s1 := fst (astep_copy (ainit g, g) ARequest) in
   let s2 := fst (astep_copy s1 (AMutate g')) in
   snd (astep_copy s2 ARequest) = Some g'.
